@@ -29,9 +29,9 @@ class SyncDispatcher:
     def shutdown(self, cancel_pending=True, timeout=5):
         return True
 
-    def run_all(self, env):
+    def run_all(self, env, limit=None):
         n = 0
-        while self.queue:
+        while self.queue and (limit is None or n < limit):
             task = self.queue.popleft()
             n += 1
             env.S.acting_as = "worker"
@@ -107,6 +107,7 @@ class Env:
             cls = waitress.server.TcpWSGIServer
             self.server = cls(self._app, map=self.map, _sock=self.listener, dispatcher=self.disp, adj=self.adj)
         self.nconn = 0
+        self.auto_run = True  # run queued tasks after every loop turn
         self.peer_default = peer_default
         self._patch_handle_error()
 
@@ -161,7 +162,7 @@ class Env:
             wc.poll2(0.0, self.map)
         else:
             wc.poll(0.0, self.map)
-        ran = self.disp.run_all(self)
+        ran = self.disp.run_all(self) if self.auto_run else 0
         return ran > 0 or self._progress() != before
 
     def _progress(self):
